@@ -27,9 +27,12 @@ IsByteSeq(b) == \A i \in 1..Len(b) : b[i] \in Byte
 Mat(s) == s \o <<>>
 
 \* Concatenation of a sequence of sequences.
-RECURSIVE ConcatFrom(_, _, _)
-ConcatFrom(ss, n, i) == IF i > n THEN <<>> ELSE ss[i] \o ConcatFrom(ss, n, i + 1)
-Concat(ss) == LET t == Mat(ss) IN ConcatFrom(t, Len(t), 1)
+\* (by halves: n log n element copies instead of n^2 / 2 - sequences of tens of thousands of pieces occur)
+RECURSIVE ConcatRange(_, _, _)
+ConcatRange(ss, lo, hi) ==
+  IF lo > hi THEN <<>> ELSE IF lo = hi THEN ss[lo]
+  ELSE LET mid == (lo + hi) \div 2 IN ConcatRange(ss, lo, mid) \o ConcatRange(ss, mid + 1, hi)
+Concat(ss) == LET t == Mat(ss) IN ConcatRange(t, 1, Len(t))
 
 RECURSIVE SumLenFrom(_, _)
 SumLenFrom(ss, i) == IF i > Len(ss) THEN 0 ELSE Len(ss[i]) + SumLenFrom(ss, i + 1)
